@@ -33,6 +33,15 @@ def gen(ctx):
             yield dict(kind="ev2", hist=[[[rng.randrange(2) for _ in range(C)] for _ in range(R)] for _ in range(H)], dtype="int32", scale=1,
                        r=1, nb=rng.choice(["moore", "vn"]), rule="hash:2:3:1:0", memo=rng.choice(["False", "True", "recursive_lit"]),
                        pred="steps:%d" % K, fuel=K + 5)
+    for _ in range(ctx.n(30, 300)):
+        R, C = rng.choice([(2, 3), (3, 3), (1, 4), (4, 2)])
+        k = rng.randint(2, 4)
+        K = rng.randint(4, 10)
+        H = rng.randint(1, 2)
+        g = [[rng.randrange(k) for _ in range(C)] for _ in range(R)]
+        yield dict(kind="ev2", hist=[[list(r_) for r_ in g] for _ in range(H)], dtype=rng.choice(["int32", "int64"]), scale=1, r=1,
+                   nb=rng.choice(["moore", "vn"]), rule="pulse:%d:%d:0" % (k, rng.randint(2, K)),
+                   memo=rng.choice(["False", "False", "True", "recursive_lit"]), pred="steps:%d" % K, fuel=K + 5)
     for _ in range(ctx.n(250, 2500)):
         c = c04.rand_case(rng, memos=["False", "True", "recursive_lit"], maxdim=5)
         c.pop("T", None)
